@@ -1,0 +1,9 @@
+//go:build !verif
+
+package server
+
+// no-op counterparts of verif_hooks.go (build tag `verif` off)
+
+func (zns *ZnPMServer) verifTick() {}
+
+func (zns *ZnPMServer) verifSpawn(p *pipe) (bool, error) { return false, nil }
